@@ -236,6 +236,21 @@ class World:
                 self.rec('stop-end', who, op[1], t)
             elif k == 'mark':
                 self.rec('mark', who, op[1])
+            elif k == 'bus?':  # record what event.event_bus says right now, inside the handler
+                try:
+                    eb = cur.event_bus.name
+                except BaseException as ex:  # noqa: BLE001
+                    eb = 'raised:' + type(ex).__name__
+                self.rec('bus?', who, hctx, eb)
+            elif k == 'try_await':  # dispatch + await a child, swallowing whatever the await raises
+                e = self._disp(who, ('disp',) + tuple(op[1:]), local, ctxn)
+                if e is not None:
+                    try:
+                        await self._await(who, e)
+                    except asyncio.CancelledError:
+                        raise
+                    except BaseException:  # noqa: BLE001
+                        pass
             elif k == 'result':  # ('result', evkey, raise_if_any): call the accessor and record what it did
                 e = local.get(op[1]) or self.events.get(op[1])
                 try:
@@ -433,6 +448,8 @@ class World:
         if not self.scn.get('fwd_first'):
             for a, b in self.scn.get('forwards', []):
                 self.buses[a].on('*', self.buses[b].dispatch)
+        for a, cls, b in self.scn.get('fwd_types', []):
+            self.buses[a].on(EVCLS[cls], self.buses[b].dispatch)
 
     async def main(self):
         import warnings
